@@ -26,7 +26,7 @@ import Bng.Md5
     ztp <hex>                             => ok <hex|->
     v6msg|v6opts|duid|iana|iapd|iaaddr|iaprefix <hex> => ok … | err
     radattrs <hex>                        => ok <tt:hex,…|-> | err
-    coa <secret> <ack|nak|def> <hex>      => drop | act <coa|dm> <fields|-> <resp>
+    coa <secret> <ack|nak|def|long> <hex>      => drop | act <coa|dm> <fields|-> <resp>
     hastream <valid msg> <stream hex>     => ok <messages accepted> <bytes accepted>
     sm fill <n> | sm rm <id> | sm next <v> | sm create   => ok … | full …
     lib-<entry> <hex>                     => (not modelled: fuzz only) ok … | err
@@ -114,6 +114,7 @@ def policyReply (policy : String) (k : Coa.Kind) : Option Coa.Reply :=
   match policy with
   | "ack" => some ⟨true, 0, []⟩
   | "nak" => some ⟨false, 503, ascii "no"⟩
+  | "long" => some ⟨false, 503, List.replicate 300 0x6d⟩     -- a 300-byte Reply-Message
   | "def" => match k with
     | .coa => some ⟨true, 0, []⟩
     | .dm => some ⟨false, 503, ascii "Session not found"⟩
